@@ -13,7 +13,7 @@ use crate::spec::items_json;
 pub static DEF: PropDef = PropDef {
     id: "C01",
     level: "exploration",
-    rule: "each case: pick a specification (zoo or random: ids of 1-8 bytes, depth <=6, global leaves, optionally global masters), generate a random conformant tree (reference path semantics) with boundary-lattice payloads (0,1,2,126-128,16382-16384 bytes; integer/float boundary values), optionally pad a master with Void to content size 126/127/128/16382/16383/16384, optionally make the last element empty, optionally add raw tags; assign per-element options (default / width 1-8 / unknown size); present it to the real TagWriter with a random choice of Full-collapsing and deprecated unknown-size calls; if every call is accepted, read the emitted bytes with the real strict TagIterator and compare the item sequence with the flattened tree (floats by bit pattern). distinct = tree fingerprint (shape, ids, options, payload length classes) x presentation; non-trivial iff >=2 masters and (a boundary-class payload length, a padded master, an empty last element, or a non-default option).",
+    rule: "each case: pick a specification (zoo or random: ids of 1-8 bytes, depth <=6, global leaves, optionally global masters), generate a random conformant tree (reference path semantics) with boundary-lattice payloads (0,1,2,126-128,16382-16384 bytes; integer/float boundary values), optionally pad a master with Void to content size 126/127/128/16382/16383/16384, optionally make the last element empty, optionally add raw tags; assign per-element options (default / width 1-8 / unknown size); present it to the real TagWriter with a random choice of Full-collapsing and deprecated unknown-size calls; if every call is accepted, read the emitted bytes with the real strict TagIterator and compare the item sequence with the flattened tree (floats by bit pattern). Case 6 of every run: a stream longer than 2^32 bytes (about 4100 Clusters of 1 MiB inside an unknown-size Segment) is written into a validating sink that compares every byte with the reference layout and holds nothing. Cases 0-5 (thorough; the two 2^28-1 cases also in the quick tier): giant boundary cases — a Binary payload / a master's content of exactly 2^28-2, 2^28-1 and 2^28 bytes (the 4-/5-byte size-field boundary) written with default widths, bytes compared with the reference encoding and read back. distinct = tree fingerprint (shape, ids, options, payload length classes) x presentation; non-trivial iff >=2 masters and (a boundary-class payload length, a padded master, an empty last element, or a non-default option).",
     assumptions: &[
         "the harness tree generator only produces specification-conformant trees per the reference path matcher (spec.rs::ref_path_match)",
         "cases in which the writer rejects a call are vacuous for C01 (counted as writer_rejected_*; acceptance itself is C11's subject)",
@@ -29,6 +29,15 @@ pub static DEF: PropDef = PropDef {
 fn run(c: &mut Case) {
     if c.tier == crate::runner::Tier::Thorough && c.idx < super::giant::GIANT_CASES {
         super::giant::run_giant(c, "C01", c.idx);
+        return;
+    }
+    if c.tier == crate::runner::Tier::Quick && c.idx < 2 {
+        // quick tier: only the two cases that sit exactly on the boundary (leaf payload / master content of 2^28-1 bytes)
+        super::giant::run_giant(c, "C01", [1u64, 4][c.idx as usize]);
+        return;
+    }
+    if c.idx == super::giant::GIANT_CASES {
+        super::huge::run_huge_write(c);
         return;
     }
     let mut o = DocOpts::MIXED;
